@@ -54,6 +54,13 @@ def check(prop, trace):
             funds = trace['case']['funds']
             if funds < 0 and trace['new_out'] != 'ValueError':
                 out.add(-1, 'negative initial funds accepted or wrong error: %s' % trace['new_out'], 'new-negative-funds')
+            if funds >= 0 and trace['case'].get('cur', 'USD') in trace.get('supported', SUPPORTED_CURRENCIES):
+                out.add(-1, 'a broker with a supported currency and non-negative funds was refused: %s' % trace['new_out'],
+                        'new-refused')
+        return out.items
+    if prop == 'C15' and trace['case'].get('cur', 'USD') not in trace.get('supported', SUPPORTED_CURRENCIES):
+        out = Out()
+        out.add(-1, 'unsupported base currency %r accepted' % trace['case'].get('cur'), 'new-unsupported-currency')
         return out.items
     return dict(C01=c01, C02=c02, C03=c03, C04=c04, C05=c05, C15=c15)[prop](trace)
 
@@ -101,6 +108,12 @@ def c01(trace):
         if st['op'][0] == 'submit' and st['out'] == 'ok' and st.get('order_id') is not None:
             submitter.setdefault(st['order_id'], set()).add(st['op'][1])
         for t in st.get('txns', []):
+            if st['op'][0] == 'update' and t.get('ok'):
+                # the commission of a broker fill is what the broker's fee model charges for it, whatever the order object carries
+                wants, ctol = fee_wants(trace['case']['fee'], t)
+                if not any(abs(fx(t['commission']) - w) <= ctol for w in wants):
+                    out.add(i, 'the fill of %+d %s was debited a commission of %r; the fee model charges %s'
+                            % (t['qty'], t['asset'], t['commission'], [float(w) for w in wants]), 'commission-not-the-fee-models')
             if t.get('id') in submitter and t['pid'] not in submitter[t['id']]:
                 out.add(i, 'the fill of order %s (%s x %s), submitted to portfolio %s, was debited to portfolio %s'
                         % (t['id'], t['qty'], t['asset'], sorted(submitter[t['id']]), t['pid']), 'fill-in-another-portfolio')
@@ -366,6 +379,21 @@ def c04(trace):
     return out.items
 
 
+def fee_wants(fee, x):
+    """what the configured fee model charges for the fill `x` (exact; either side of a near-tie of the rounded consideration)"""
+    prod = fx(x['price']) * x['qty']
+    cands = {rhe(prod)}
+    fr = prod - math.floor(prod)
+    if fr != F(1, 2) and abs(fr - F(1, 2)) < F(1, 10 ** 6):
+        # the float product may land on either side of a near tie; an exact tie goes to the even integer
+        cands |= {math.floor(prod), math.floor(prod) + 1}
+    if fee[0] == 'Z':
+        wants = [F(0)]
+    else:
+        wants = [(fx(fee[1]) + fx(fee[2])) * abs(c) for c in cands]
+    return wants, abs(prod) / 10 ** 9 + F(1, 10 ** 9)
+
+
 def c05(trace):
     out = Out()
     fee = trace['case']['fee']
@@ -386,16 +414,7 @@ def c05(trace):
                 if x['price'] != side:
                     out.add(i, 'fill of %+d %s priced %r; quote bid %r ask %r' % (x['qty'], x['asset'], x['price'], bid, ask), 'price-side')
                 prod = fx(x['price']) * x['qty']
-                cands = {rhe(prod)}
-                fr = prod - math.floor(prod)
-                if fr != F(1, 2) and abs(fr - F(1, 2)) < F(1, 10 ** 6):
-                    # the float product may land on either side of a near tie; an exact tie goes to the even integer
-                    cands |= {math.floor(prod), math.floor(prod) + 1}
-                if fee[0] == 'Z':
-                    wants = [F(0)]
-                else:
-                    wants = [(fx(fee[1]) + fx(fee[2])) * abs(c) for c in cands]
-                tol = abs(prod) / 10 ** 9 + F(1, 10 ** 9)
+                wants, tol = fee_wants(fee, x)
                 if not any(abs(fx(x['commission']) - w) <= tol for w in wants):
                     out.add(i, 'commission %r on consideration %s; fee model gives %s' % (x['commission'], float(prod),
                                                                                      [float(w) for w in wants]), 'commission')
@@ -415,7 +434,7 @@ def c05(trace):
     return out.items
 
 
-def expected_refusal(op, pre):
+def expected_refusal(op, pre, supported=SUPPORTED_CURRENCIES):
     """the documented refusal (error class) of a request given the observed pre-state, or None"""
     k = op[0]
     pf = {p['id']: p for p in pre['pfs']}
@@ -468,7 +487,7 @@ def expected_refusal(op, pre):
     if k == 'q':
         what, arg = op[1], op[2]
         if what == 'cash':
-            return 'ValueError' if arg not in SUPPORTED_CURRENCIES else None
+            return 'ValueError' if arg not in supported else None
         if arg in pf:
             return None
         return 'ValueError' if what == 'pfcash' else 'KeyError'
@@ -482,7 +501,7 @@ def c15(trace):
         post = st['post']
         op = st['op']
         if op[0] in C15_OPS:
-            want = expected_refusal(op, pre)
+            want = expected_refusal(op, pre, trace.get('supported', SUPPORTED_CURRENCIES))
             if want is not None and st['out'] != want:
                 out.add(i, '%r must be refused with %s, got %s' % (op, want, st['out']), 'refusal-kind')
             if st['out'] != 'ok' and obs(pre) != obs(post):
